@@ -11,16 +11,17 @@ X64 = True
 RULE = ('models: conservative generator forests (no damping, limits or '
         'actuators; joint springs allowed; exact mass-matrix inverse); one '
         'initial state with |qd|<=1; the state after T=0.064 s reached with '
-        '64, 128 and 256 steps. One event = one model/state with the three '
+        '64, 128, 256 and 512 steps. One event = one model/state with the three '
         'drifts and the Richardson-extrapolated drift. distinct = (topology, '
         'signature multiset); non-trivial = >= 2 dofs and energy drift above '
         '1e-7 at the coarsest step (so the order test is not vacuous)')
 ASSUMPTIONS = [
     'MuJoCo 3.13 potential+kinetic energy and subtree linear velocity at '
     "brax's (q, qd) are the reference observables",
-    'a consistent first-order scheme has D(h)=c1 h+c2 h^2+O(h^3); the '
-    'three-point extrapolation D0=(8D(h/4)-6D(h/2)+D(h))/3 must vanish: '
-    '|D0| <= 0.02 max|D| + 1e-9',
+    'a consistent first-order scheme has D(h)=c1 h+c2 h^2+c3 h^3+O(h^4); the '
+    'four-point Richardson extrapolation D0=(64D(h/8)-56D(h/4)+14D(h/2)-D(h))'
+    '/21 must vanish: |D0| <= 0.02 max|D| + 1e-9 (the three-point form left '
+    'up to 1.3% on stiff 15-24 dof models, too close to the threshold)',
 ]
 T_HORIZON = 0.064
 
@@ -105,7 +106,7 @@ def run(job, mon):
     mtot = mj.body_mass[1:].sum()
     drift_e, drift_p = [], []
     fin = True
-    for n in (64, 128, 256):
+    for n in (64, 128, 256, 512):
       qt, qdt = runj(jp.array(q), jp.array(qd), T_HORIZON / n, n)
       qt, qdt = np.asarray(qt), np.asarray(qdt)
       if not phys.finite(qt, qdt):
@@ -117,23 +118,25 @@ def run(job, mon):
     if not fin:
       mon.count('models_diverged')
       continue
-    d1, d2, d4 = drift_e
-    ext = (8 * d4 - 6 * d2 + d1) / 3
-    dmax = max(abs(d1), abs(d2), abs(d4))
+    d1, d2, d4, d8 = drift_e
+    # Richardson extrapolation to h -> 0 removing the h, h^2 and h^3 terms
+    ext = (64 * d8 - 56 * d4 + 14 * d2 - d1) / 21
+    dmax = max(abs(d1), abs(d2), abs(d4), abs(d8))
     measurable = dmax > 1e-7
     if measurable:
       mon.count('models_with_measurable_drift')
       mon.err('energy_extrapolated_over_max', abs(ext) / dmax)
     mon.distinct(gen.topo_key(spec), measurable and mj.nv >= 2)
     wit = lambda **kw: dict(model=c, seed=job['seed'], xml=xml, q=q, qd=qd,
-                            horizon=T_HORIZON, steps=(64, 128, 256), **kw)
+                            horizon=T_HORIZON, steps=(64, 128, 256, 512), **kw)
     mon.check('energy_drift_vanishes', abs(ext) <= 0.02 * dmax + 1e-9,
               lambda: wit(E0=e0, drift=drift_e, extrapolated=ext,
                           ratio_h2_h1=d2 / d1 if d1 else None))
     if roots_free:
-      p1, p2, p4 = drift_p
-      extp = (8 * p4 - 6 * p2 + p1) / 3
-      pmax = max(np.abs(p1).max(), np.abs(p2).max(), np.abs(p4).max())
+      p1, p2, p4, p8 = drift_p
+      extp = (64 * p8 - 56 * p4 + 14 * p2 - p1) / 21
+      pmax = max(np.abs(p1).max(), np.abs(p2).max(), np.abs(p4).max(),
+                 np.abs(p8).max())
       mon.check('momentum_drift_vanishes',
                 np.abs(extp).max() <= 0.02 * pmax + 1e-9,
                 lambda: wit(momentum_drift=drift_p, extrapolated=extp))
